@@ -96,3 +96,13 @@ Theorem C19_converter_lookup_is_case_sensitive :
       && str_eqb (GoNode.IdentMatcher_pattern (GoNode.NameMatcher_dst (GoNode.FieldConverter_m c))) dst.
 Proof. exact converter_match_tie. Qed.
 Print Assumptions C19_converter_lookup_is_case_sensitive.
+
+(** ... and the name comparison of the builder's name pass (Options.CompareFieldName, pkg/option/option.go,
+    translated on every run) is that identifier comparison: [Builder.compare_field_name] is the same
+    expression over the method's case rule. *)
+Theorem C19_field_name_comparison_is_the_go_code :
+  forall o a b,
+    GoNode.Options_CompareFieldName o a b
+    = if GoNode.Options_ExactCase o then str_eqb a b else str_equal_fold a b.
+Proof. exact compare_field_name_tie. Qed.
+Print Assumptions C19_field_name_comparison_is_the_go_code.
